@@ -28,11 +28,13 @@ const (
 	vxFateNever   = 2 // caller abandons; never answered
 	vxFateError   = 3 // answered with an ERROR frame carrying the token
 	vxFateLateErr = 4 // abandoned, later answered with an ERROR frame
+	vxFateEarly   = 5 // context cancelled a drawn delay after the call started (possibly before / while the frame is written); answered late if the request did reach the node
 )
 
 type vxC01Phase struct {
 	Fates []int `json:"fates"` // one per caller
 	Order []int `json:"order"` // keys deciding the answer order of this phase's answers and of released late answers
+	Early []int `json:"early,omitempty"` // fate 5: microseconds between the start of the call and its cancellation (indexed like Fates)
 }
 
 type vxC01Case struct {
@@ -40,6 +42,7 @@ type vxC01Case struct {
 	Coalesce  bool         `json:"coalesce"`
 	ByTimeout bool         `json:"by_timeout"` // abandon through the driver's own timer instead of context cancellation
 	Chunks    []int        `json:"chunks,omitempty"`
+	WriteDelayUs int       `json:"write_delay_us,omitempty"` // every write of the driver takes this long (slow link)
 	Phases    []vxC01Phase `json:"phases"`
 }
 
@@ -49,6 +52,8 @@ func vxDrawC01(t *rapid.T) *vxC01Case {
 	if rapid.Bool().Draw(t, "chunked") {
 		c.Chunks = rapid.SliceOfN(rapid.IntRange(1, 40), 1, 5).Draw(t, "chunks")
 	}
+	c.WriteDelayUs = rapid.SampledFrom([]int{0, 0, 0, 200, 1000}).Draw(t, "write_delay_us")
+	early := rapid.IntRange(0, 2).Draw(t, "early_cancels") == 0
 	np := rapid.IntRange(1, 4).Draw(t, "phases")
 	for p := 0; p < np; p++ {
 		n := rapid.IntRange(1, 12).Draw(t, "callers")
@@ -57,8 +62,15 @@ func vxDrawC01(t *rapid.T) *vxC01Case {
 		}
 		ph := vxC01Phase{}
 		for i := 0; i < n; i++ {
-			ph.Fates = append(ph.Fates, rapid.SampledFrom([]int{0, 0, 0, 0, 1, 1, 2, 3, 4}).Draw(t, "fate"))
+			fates := []int{0, 0, 0, 0, 1, 1, 2, 3, 4}
+			if early {
+				fates = []int{0, 0, 0, 1, 2, 3, 4, 5, 5, 5}
+			}
+			ph.Fates = append(ph.Fates, rapid.SampledFrom(fates).Draw(t, "fate"))
 			ph.Order = append(ph.Order, rapid.IntRange(0, 1000).Draw(t, "order"))
+			if early {
+				ph.Early = append(ph.Early, rapid.SampledFrom([]int{0, 20, 100, 250, 600, 1500}).Draw(t, "early_us"))
+			}
 		}
 		c.Phases = append(c.Phases, ph)
 	}
@@ -146,8 +158,39 @@ func (m *vxC01Monitor) onRequest(rc *vnode.ReqCtx) {
 	m.arrived <- tok
 }
 
+// dropClosed forgets the requests held on connections that are closed at either end (their callers are
+// decided by the closure); requests that arrived on a connection still open stay held.
+func (m *vxC01Monitor) dropClosed() {
+	m.mu.Lock()
+	defer m.mu.Unlock()
+	for tok, h := range m.held {
+		if h.rc.Conn.C.Closed() || h.rc.Conn.Client.Closed() {
+			delete(m.held, tok)
+			delete(m.outstanding, h.rc.Conn.ID)
+		}
+	}
+}
+
+func (m *vxC01Monitor) isHeld(tok string) bool {
+	m.mu.Lock()
+	defer m.mu.Unlock()
+	h := m.held[tok]
+	return h != nil && !h.rc.Conn.C.Closed() && !h.rc.Conn.Client.Closed()
+}
+
 // answer sends the reply for token (marking the id free *before* the bytes leave).
 func (m *vxC01Monitor) answer(tok string, asError bool) bool {
+	mode := 0
+	if asError {
+		mode = 1
+	}
+	return m.answerMode(tok, mode)
+}
+
+// answerMode: 0 the token's row, 1 an ERROR frame naming the token, 2 the token's row in a well-formed
+// frame stamped with another protocol version of the same header layout (4<->3, 5->4, 2<->1).
+func (m *vxC01Monitor) answerMode(tok string, mode int) bool {
+	asError := mode == 1
 	m.mu.Lock()
 	h := m.held[tok]
 	if h == nil {
@@ -161,8 +204,16 @@ func (m *vxC01Monitor) answer(tok string, asError bool) bool {
 		h.rc.Reply(&cqlspec.Response{Kind: "ERROR", Code: cqlspec.ErrInvalid, Message: "err for " + tok})
 		return true
 	}
-	h.rc.Reply(vnode.RowsResponse([]cqlspec.Column{{Keyspace: "ks", Table: "t", Name: "tok", Type: cqlspec.Scalar(cqlspec.Varchar)}},
-		[][]cqlspec.Value{{cqlspec.BytesValue([]byte(tok))}}))
+	rows := vnode.RowsResponse([]cqlspec.Column{{Keyspace: "ks", Table: "t", Name: "tok", Type: cqlspec.Scalar(cqlspec.Varchar)}},
+		[][]cqlspec.Value{{cqlspec.BytesValue([]byte(tok))}})
+	if mode == 2 {
+		r := *rows
+		r.Stream = h.rc.Req.Header.Stream
+		r.Version = map[int]int{1: 2, 2: 1, 3: 4, 4: 3, 5: 4}[h.rc.Req.Header.Version]
+		h.rc.Conn.Send(&r)
+		return true
+	}
+	h.rc.Reply(rows)
 	return true
 }
 
@@ -182,8 +233,10 @@ func vxRunC01(c *vxC01Case, k *vstats.Case) error {
 		mon.maxStream = 32767
 	}
 	cl.Nodes()[0].Handler = mon.onRequest
-	if len(c.Chunks) > 0 {
-		cl.PlanFor = func(addr string, nth int) vnode.Plan { return vnode.Plan{ReadChunks: c.Chunks} }
+	if len(c.Chunks) > 0 || c.WriteDelayUs > 0 {
+		cl.PlanFor = func(addr string, nth int) vnode.Plan {
+			return vnode.Plan{ReadChunks: c.Chunks, WriteDelayUs: c.WriteDelayUs}
+		}
 	}
 	obs := &vxC01Obs{}
 	timeout := 20 * time.Second
@@ -205,6 +258,7 @@ func vxRunC01(c *vxC01Case, k *vstats.Case) error {
 	var pendingLate []string          // tokens abandoned earlier whose answers are still to be sent
 	lateAsErr := map[string]bool{}    // which of them are answered with an ERROR frame
 	reorderings, lateAfterNewer := 0, 0
+	earlyCancels, earlyArrived := 0, 0
 	for pi, ph := range c.Phases {
 		n := len(ph.Fates)
 		results := make(chan vxC01Result, n)
@@ -214,6 +268,14 @@ func vxRunC01(c *vxC01Case, k *vstats.Case) error {
 			toks[i] = fmt.Sprintf("tok_%d_%d", pi, i)
 			ctx, cancel := context.WithCancel(context.Background())
 			cancels[i] = cancel
+			if ph.Fates[i] == vxFateEarly {
+				d := 0
+				if i < len(ph.Early) {
+					d = ph.Early[i]
+				}
+				earlyCancels++
+				time.AfterFunc(time.Duration(d)*time.Microsecond, cancel)
+			}
 			go func(tok string, ctx context.Context) {
 				var got string
 				iter := s.Query("LIST " + tok).WithContext(ctx).Iter()
@@ -237,7 +299,12 @@ func vxRunC01(c *vxC01Case, k *vstats.Case) error {
 		for seenBoth() < n {
 			select {
 			case tok := <-mon.arrived:
-				arrived[tok] = true
+				if strings.HasPrefix(tok, fmt.Sprintf("tok_%d_", pi)) {
+					arrived[tok] = true
+				} else {
+					// the request of a caller cancelled early in an earlier phase reached the node only now
+					pendingLate = append(pendingLate, tok)
+				}
 			case r := <-results:
 				done[r.tok] = r
 			case <-deadline:
@@ -250,7 +317,7 @@ func vxRunC01(c *vxC01Case, k *vstats.Case) error {
 		// abandon the callers whose fate says so
 		abandoned := map[string]bool{}
 		for i, f := range ph.Fates {
-			if (f == vxFateLate || f == vxFateNever || f == vxFateLateErr) && arrived[toks[i]] {
+			if (f == vxFateLate || f == vxFateNever || f == vxFateLateErr || f == vxFateEarly) && arrived[toks[i]] {
 				abandoned[toks[i]] = true
 				if !c.ByTimeout {
 					cancels[i]()
@@ -345,6 +412,37 @@ func vxRunC01(c *vxC01Case, k *vstats.Case) error {
 		for i := range cancels {
 			cancels[i]()
 		}
+		// a caller cancelled early may have returned while its frame was still on its way: give the (slow)
+		// link time to deliver it, then hold whatever arrived for a late answer
+		hasEarly := false
+		for i, f := range ph.Fates {
+			if f == vxFateEarly && !arrived[toks[i]] {
+				hasEarly = true
+			}
+		}
+		if hasEarly {
+			time.Sleep(time.Duration(c.WriteDelayUs)*time.Microsecond + 1500*time.Microsecond)
+		drainArrivals:
+			for {
+				select {
+				case tok := <-mon.arrived:
+					if strings.HasPrefix(tok, fmt.Sprintf("tok_%d_", pi)) {
+						arrived[tok] = true
+					} else {
+						pendingLate = append(pendingLate, tok)
+					}
+				default:
+					break drainArrivals
+				}
+			}
+		}
+		for i, f := range ph.Fates {
+			if f == vxFateEarly && arrived[toks[i]] {
+				earlyArrived++
+				pendingLate = append(pendingLate, toks[i])
+				lateAsErr[toks[i]] = ph.Order[i]%2 == 1
+			}
+		}
 		// judge every caller of this phase
 		for i, f := range ph.Fates {
 			r := done[toks[i]]
@@ -378,6 +476,9 @@ func vxRunC01(c *vxC01Case, k *vstats.Case) error {
 				if r.err == nil || r.got != "" {
 					return fmt.Errorf("phase %d: caller of %s was abandoned before any answer was sent but got row %q err %v", pi, r.tok, r.got, r.err)
 				}
+				if f == vxFateEarly && errors.Is(r.err, context.Canceled) {
+					break
+				}
 				if c.ByTimeout && !timedOut || !c.ByTimeout && !errors.Is(r.err, context.Canceled) {
 					return fmt.Errorf("phase %d: abandoned caller of %s got %v", pi, r.tok, r.err)
 				}
@@ -406,6 +507,15 @@ func vxRunC01(c *vxC01Case, k *vstats.Case) error {
 	}
 	if lateAfterNewer > 0 {
 		k.Class("late-answer-after-newer-requests")
+	}
+	if earlyCancels > 0 {
+		k.Class("early-cancel")
+	}
+	if earlyArrived > 0 {
+		k.Class("early-cancel-request-still-reached-node")
+	}
+	if c.WriteDelayUs > 0 {
+		k.Class("slow-writes")
 	}
 	if reorderings > 0 {
 		k.Class("answers-reordered")
@@ -439,7 +549,7 @@ func vxErrClass(err error) string {
 func TestVxC01Routing(t *testing.T) {
 	vx.Check(t, vx.Prop{
 		ID: "C01", Part: "TestVxC01Routing",
-		Rule: "protocol 1..5, one pool connection (coalescing on/off, reads chunked), 1..4 phases of 1..12 (sometimes 100..140) concurrent callers with unique tokens; per caller a fate: answered / ERROR frame / abandoned (context cancel, or the driver's own 120 ms timer in 1/8 of cases) and answered during a later phase / never answered; answers of a phase (and released late answers) sent in a drawn order; oracle: own row or own error only, node-side wire monitor (no stream id reused while unanswered, ids in range), stream observer balanced; non-trivial = answers out of request order or a late answer released after newer requests were issued; distinct by the whole plan",
+		Rule: "protocol 1..5, one pool connection (coalescing on/off, reads chunked), 1..4 phases of 1..12 (sometimes 100..140) concurrent callers with unique tokens; per caller a fate: answered / ERROR frame / abandoned (context cancel, or the driver's own 120 ms timer in 1/8 of cases) and answered during a later phase / never answered / cancelled 0-1500 us after the call started (before, while or after its frame is written; writes take 0, 200 or 1000 us) and answered late if the request still reached the node; answers of a phase (and released late answers) sent in a drawn order; oracle: own row or own error only, node-side wire monitor (no stream id reused while unanswered, ids in range), stream observer balanced; non-trivial = answers out of request order or a late answer released after newer requests were issued; distinct by the whole plan",
 		Draw: func(t *rapid.T) interface{} { return vxDrawC01(t) },
 		New:  func() interface{} { return &vxC01Case{} },
 		Run: func(ci interface{}, k *vstats.Case) error {
